@@ -3,6 +3,7 @@
 //	seldrive hist    -in scripts.ndjson -out obs.ndjson -strats rr,random,... -wt 0,1 -k-rr N ...
 //	seldrive weights -in vectors.ndjson -out recs.ndjson
 //	seldrive conc    -strat rr -wt 1 -seed S -runs N -out trace.ndjson
+//	seldrive mgr     -in mgrscripts.ndjson -out obs.ndjson -wt=false -seed S   (endpoint manager: registry refreshes, block, recover)
 //
 // Hosts are small integers k, named "10.0.0.k" (1 <= k <= 9), so that the numeric order is the order
 // of Endpoint.String(), which the weight builder uses to break ties.
@@ -29,6 +30,7 @@ var cmds = map[string]func(args []string) error{
 	"hist":    histMain,
 	"weights": weightsMain,
 	"conc":    concMain,
+	"mgr":     mgrMain,
 }
 
 func main() {
